@@ -22,9 +22,25 @@ def main(argv):
     scratch = chk.Scratch()
     rc = 0
     try:
-        binary = scratch.build("sparse")
+        sparse = scratch.build("sparse")
         procs = [1, 4, 16, 1, 16]
+        plan = []
         for prop in ids:
+            plan.append((prop, "sparse", nseeds))
+            cfg = props.PROPS[prop]
+            if cfg.get("dense") and os.environ.get("VERIF_SELFTEST_DENSE", "1") != "0":
+                plan.append((prop, "dense", max(10, nseeds // 4)))
+                if cfg.get("dense_deps"):
+                    plan.append((prop, "depsdense", max(10, nseeds // 4)))
+        for prop, build, nseeds in plan:
+            cfg = props.PROPS[prop]
+            env_dense = None
+            if build == "sparse":
+                binary = sparse
+            else:
+                binary = scratch.build(build + "-" + prop, cfg["dense"], "expr" if build == "depsdense" else "")
+                env_dense = {"VERIF_DENSE": "1"}
+            prop_label = prop if build == "sparse" else "%s[%s build]" % (prop, build)
             t0 = time.time()
             jobs = []
             with concurrent.futures.ThreadPoolExecutor(max_workers=chk.JOBS * 2) as ex:
@@ -32,7 +48,7 @@ def main(argv):
                     seed = chk.derive_seed(base + 17, i)
                     for gp in procs:
                         jobs.append((seed, gp, ex.submit(chk.run_worker, binary,
-                                     ["-sim.prop", prop, "-sim.seed", str(seed), "-sim.tier", tier, "-sim.full"], 180, {"GOMAXPROCS": str(gp)})))
+                                     ["-sim.prop", prop, "-sim.seed", str(seed), "-sim.tier", tier, "-sim.full"], 180, dict(env_dense or {}, GOMAXPROCS=str(gp)))))
                 by_seed = {}
                 for seed, gp, f in jobs:
                     res, crash = f.result()
@@ -82,11 +98,11 @@ def main(argv):
                         if rbad <= 3:
                             print("selftest %s: seed %d: strict replay of its own decisions differs from the run: digest %s vs %s; violations %s vs %s; %s" % (
                                 prop, seed, rr.get("digest"), r.get("digest"), rr.get("violations"), r.get("violations"), (crash or {}).get("stderr", "")[-300:]))
-            print("selftest %s: %d strict replays of own decisions: %d differ" % (prop, len(rjobs), rbad), flush=True)
+            print("selftest %s: %d strict replays of own decisions: %d differ" % (prop_label, len(rjobs), rbad), flush=True)
             if rbad:
                 rc = 2
             print("selftest %s: %d seeds x %d processes (GOMAXPROCS %s): %d diverged, label ties %d, %.1fs" % (
-                prop, len(by_seed), len(procs), procs, bad, ties, time.time() - t0), flush=True)
+                prop_label, len(by_seed), len(procs), procs, bad, ties, time.time() - t0), flush=True)
             if bad:
                 rc = 2
         # sync.Map.Range is not covered by the map seam
